@@ -1288,6 +1288,8 @@ class Evaluator:
     def e_BinOp(self, n, live):
         l = self.ev(n.left, live)
         r = self.ev(n.right, live)
+        if isinstance(n.op, ast.Add) and l[0] == "const" and r[0] == "const" and isinstance(l[1], str) and isinstance(r[1], str):
+            return ("const", l[1] + r[1])  # "onset" + "_sample"
         return ("bin", BIN_AST.get(type(n.op), "?"), l, r)
 
     def e_BoolOp(self, n, live):
@@ -1556,10 +1558,12 @@ class Evaluator:
             self.loop_stack.append(lid)
             try:
                 t = ("call", fn, (el,), ())
-                if fn[0] == "call" and fn[1] == ("ext", "functools.partial") and fn[2] and not any(k == "**" for k, _ in fn[3]):
-                    # map(partial(g, a, b), xs): g(a, b, x) per element
-                    t = ("call", fn[2][0], tuple(fn[2][1:]) + (el,), tuple(sorted(fn[3])))
+                if fn[0] == "call" and fn[1] == ("ext", "functools.partial") and fn[2]:
+                    # map(partial(g, a, b, **kw), xs): g(a, b, x, **kw) per element
+                    nm = sorted([kv for kv in fn[3] if kv[0] != "**"], key=lambda kv: kv[0])
+                    t = ("call", fn[2][0], tuple(fn[2][1:]) + (el,), tuple(nm + [kv for kv in fn[3] if kv[0] == "**"]))
                     fn = fn[2][0]
+                    v = t
                 inl = self._try_inline(fn, t, AND(live, ("inloop", lid)), n)
                 if inl is not None:
                     return inl
@@ -1571,6 +1575,10 @@ class Evaluator:
 
     def _norm_call(self, f, args, named, spreads, live, n):
         plain = not named and not spreads and not any(a[0] == "star" for a in args)
+        # getattr(x, "name") is x.name
+        if f == ("builtin", "getattr") and "getattr" not in self.env and plain and len(args) == 2 and args[1][0] == "const" \
+                and isinstance(args[1][1], str) and args[1][1].isidentifier():
+            return ("attr", args[0], args[1][1])
         # list(record) / tuple(record) is the display of its fields
         if f in (("builtin", "list"), ("builtin", "tuple")) and plain and len(args) == 1 and args[0][0] == "call" and self._is_record(args[0]) \
                 and f[1] not in self.env:
@@ -1627,8 +1635,9 @@ class Evaluator:
             self.loops[lid].conds = (cond,)
             return ("comp", "gen", el, ((lid, args[1], (cond,)),))
         # functools.partial(g, a, k=v)(b) is g(a, b, k=v)
-        if f[0] == "call" and f[1] == ("ext", "functools.partial") and f[2] and not any(k == "**" for k, _ in f[3]):
-            kws = dict(f[3])
+        if f[0] == "call" and f[1] == ("ext", "functools.partial") and f[2]:
+            spreads = [kv for kv in f[3] if kv[0] == "**"] + list(spreads)
+            kws = dict(kv for kv in f[3] if kv[0] != "**")
             kws.update(dict(named))
             again = self._norm_call(f[2][0], list(f[2][1:]) + list(args), sorted(kws.items()), list(spreads), live, n)
             if again is not None:
@@ -1968,6 +1977,19 @@ class Evaluator:
         v = vals[-1][1]
         for lv, tm in reversed(vals[:-1]):
             v = ITE(lv, tm, v)
+        # events carry records as tuples: a helper annotated `-> Rec` hands back records again
+        rci = self._record_class_of_annotation(getattr(cs.node, "returns", None), cs.module)
+        if rci is not None:
+            nf = len([st for st in rci.node.body if isinstance(st, ast.AnnAssign)])
+
+            def retype(x):
+                if x[0] == "ite":
+                    return ITE(x[1], retype(x[2]), retype(x[3]))
+                if x[0] == "tuple" and len(x[1]) == nf:
+                    return ("call", ("global", rci.qual, "class"), x[1], ())
+                return x
+
+            v = retype(v)
         return v
 
     def _splice_generator(self, call_term, live, depth=0):
@@ -2318,6 +2340,9 @@ def fold_sub(t):
     if not isinstance(t, tuple) or not t:
         return t
     t = tuple(fold_sub(c) if isinstance(c, tuple) else c for c in t)
+    if t and t[0] == "bin" and t[1] == "+" and t[2][0] == "const" and t[3][0] == "const" and isinstance(t[2][1], str) \
+            and isinstance(t[3][1], str):
+        return ("const", t[2][1] + t[3][1])
     if t and t[0] == "dict" and any(k == ("dstar",) and v[0] == "dict" for k, v in t[1]):
         items = []
         for k, v in t[1]:
